@@ -13,6 +13,8 @@ directory).  The oracle is the file-set descriptor itself:
            first member in effective order wins, names are relative to the member's subfolder, walk_folder lists
            each name once, walk_folder_repeat once per containing member.
 
+* case_dups: zip / VPK sets with names that differ only in case - self-consistency of walks, lookups and chains.
+
 RawFileSystem is judged for exact-case spellings only (the host file system is case-sensitive).
 """
 from __future__ import annotations
@@ -37,6 +39,9 @@ RULE = (
     'lower / swapped-case / backslash / mixed-slash spelling, absent names, every folder in those spellings with and '
     'without trailing separator, folder-name prefixes and extensions, file paths used as folders, and the empty folder; '
     'chains of 1-4 members over a shared path pool with constructor/add_sys/priority insertion and subfolder prefixes. '
+    'case_dups: zip/VPK file sets that hold names differing only in case (file, folder or whole path), directly and '
+    'through 1-2 member chains, judged for self-consistency only (each folded name listed once, listed File == lookup of '
+    'its name, all spellings give the same bytes), since which duplicate wins is unspecified. '
     'non-trivial = the set has a mixed-case path and two folders/paths where one name is a prefix of the other '
     '(chain: >= 2 members expose the same name); distinct = sha1 of the descriptor JSON'
 )
@@ -824,6 +829,168 @@ def execute_chain(desc, ctx):
         scratch.close()
 
 
+# ------------------------------------------------------------------------------------------------
+# case_dups: file sets that hold names differing only in letter case (zip and VPK can store them)
+
+DUP_FOLDERS = ['scripts', 'Materials', 'a', 'ab']
+DUP_STEMS = ['sounds', 'Sounds', 'x', 'b', 'readme']
+DUP_EXTS = ['.txt', '.txt', '', '.VMT']
+
+
+def casedup_strategy(tier: str):
+    return st.fixed_dictionaries({
+        'paths': st.lists(path_strategy(DUP_FOLDERS, DUP_STEMS, DUP_EXTS, max_depth=2), min_size=1, max_size=7),
+        # [index of the path to duplicate, which part gets another case, how]
+        'variants': st.lists(st.tuples(st.integers(0, 15), st.sampled_from(['file', 'file', 'folder', 'all']),
+                                       st.sampled_from(['upper', 'lower', 'swap', 'title'])).map(list),
+                             min_size=1, max_size=5),
+        'backend': st.sampled_from(['zip', 'vpk', 'vpk']),
+        'zip_dirs': st.booleans(), 'zip_mem': st.booleans(), 'vpk_single': st.booleans(),
+        'chain': st.sampled_from(['single', 'twice', 'zip+vpk', 'vpk+zip']),
+    })
+
+
+def casedup_paths(desc) -> list[str]:
+    """Base paths plus case variants; exact duplicates dropped; no name that is also a folder (under folding)."""
+    cand = list(desc['paths'])
+    for idx, scope, mode in desc['variants']:
+        p = cand[idx % len(desc['paths'])]
+        head, _, tail = p.rpartition('/')
+        if scope == 'file':
+            v = (head + '/' if head else '') + recase(tail, mode)
+        elif scope == 'folder':
+            v = (recase(head, mode) + '/' if head else '') + tail
+        else:
+            v = recase(p, mode)
+        cand.append(v)
+    out: list[str] = []
+    files: set[str] = set()
+    folders: set[str] = set()
+    for p in dict.fromkeys(cand):
+        fp = fold(p)
+        comps = fp.split('/')
+        mine = {'/'.join(comps[:i]) for i in range(1, len(comps))}
+        if fp in folders or mine & files:
+            continue
+        out.append(p)
+        files.add(fp)
+        folders |= mine
+    return out
+
+
+def execute_case_dups(desc, ctx):
+    from srctools.filesys import FileSystemChain
+    paths = casedup_paths(desc)
+    tokens = {p: f'DUP {i} {p}\n'.encode('ascii') for i, p in enumerate(paths)}
+    groups: dict[str, list[str]] = {}
+    for p in paths:
+        groups.setdefault(fold(p), []).append(p)
+    folder_spellings: dict[str, set] = {}
+    for p in paths:
+        comps = p.split('/')
+        for i in range(1, len(comps)):
+            f = '/'.join(comps[:i])
+            folder_spellings.setdefault(fold(f), set()).add(f)
+    dup_file = any(len(g) > 1 for g in groups.values())
+    dup_folder = any(len(v) > 1 for v in folder_spellings.values())
+    if dup_file:
+        ctx.label('has_case_dup_file')
+    if dup_folder:
+        ctx.label('has_case_dup_folder')
+    ctx.label('backend:' + desc['backend'])
+    ctx.label('chain:' + desc['chain'])
+    ctx.nontrivial(dup_file)
+
+    class Plain:        # make_backend() wants a FileSet-like object
+        pass
+    fset = Plain()
+    fset.paths, fset.tokens = paths, tokens
+
+    def under(folder: str):
+        f = fold(folder).rstrip('/')
+        return sorted(n for n in groups if f == '' or n.startswith(f + '/'))
+
+    folder_qs = ['']
+    for ff, spells in sorted(folder_spellings.items()):
+        folder_qs += sorted(spells) + [ff, ff.upper() + '/']
+    folder_qs = list(dict.fromkeys(folder_qs))
+
+    scratch = Scratch()
+    try:
+        backend = desc['backend']
+        fs = make_backend(backend, fset, scratch, desc)
+        what = f'{backend} holding {paths!r}'
+
+        # --- lookups: every spelling gives the same bytes, and they are one of the group's contents
+        for name, group in groups.items():
+            seen: dict[bytes, str] = {}
+            sp = []
+            for g in group:
+                sp += [q for _, q in spellings(g)]
+            for q in dict.fromkeys(sp):
+                facts = {'backend': backend, 'query': q}
+                if not ctx.check(q in fs, 'dup_membership', f'{what}: {q!r} reported absent', **facts):
+                    continue
+                for op, data in (('getitem', read_all(fs[q].open_bin())), ('open_bin', read_all(fs.open_bin(q))),
+                                 ('open_str', read_all(fs.open_str(q)))):
+                    ctx.check(data in [tokens[g] for g in group], 'dup_foreign_bytes',
+                              f'{what}: {op} {q!r} gave {data!r}, not the content of any of {group!r}', **facts)
+                    seen.setdefault(data, f'{op} {q!r}')
+            ctx.check(len(seen) <= 1, 'dup_lookup_inconsistent',
+                      f'{what}: spellings of one name give different files: {seen!r}', backend=backend, query=name)
+
+        # --- walks
+        def check_listing(label: str, obj, q: str, lookup) -> None:
+            files = list(obj.walk_folder(q))
+            got = sorted(fold(f.path) for f in files)
+            facts = {'backend': backend, 'via': label, 'folder': q}
+            if not ctx.check(len(set(got)) == len(got), 'dup_listed_twice',
+                             f'{label} {what}: walk_folder({q!r}) lists a name more than once: {[f.path for f in files]!r}',
+                             **facts):
+                return
+            if not ctx.check(got == under(q), 'dup_listing',
+                             f'{label} {what}: walk_folder({q!r})\n want {under(q)!r}\n got  {got!r}', **facts):
+                return
+            for f in files:
+                data = read_all(f.open_bin())
+                ctx.check(data in [tokens[g] for g in groups[fold(f.path)]], 'dup_foreign_bytes',
+                          f'{label} {what}: listed {f.path!r} opens to {data!r}', **facts)
+                if not ctx.check(f.path in obj, 'dup_listed_lookup',
+                                 f'{label} {what}: walk_folder({q!r}) listed {f.path!r} but `in` says absent', **facts):
+                    continue
+                again = read_all(lookup(f.path).open_bin())
+                ctx.check(again == data, 'dup_listed_inconsistent',
+                          f'{label} {what}: walk_folder({q!r}) listed {f.path!r} which opens to {data!r}, but looking that '
+                          f'name up gives {again!r}', **facts)
+
+        for q in folder_qs:
+            check_listing('direct', fs, q, lambda n: fs[n])
+        it = sorted(fold(f.path) for f in fs)
+        ctx.check(it == sorted(groups), 'dup_iter', f'{what}: list(fs) gives {it!r}, want each of {sorted(groups)!r} once',
+                  backend=backend)
+
+        # --- through a chain
+        kind = desc['chain']
+        if kind == 'single':
+            members = [fs]
+        elif kind == 'twice':
+            members = [fs, make_backend(backend, fset, scratch, desc)]
+        else:
+            other = 'vpk' if backend == 'zip' else 'zip'
+            second = make_backend(other, fset, scratch, desc)
+            members = [fs, second] if kind.startswith(backend) else [second, fs]
+        chain = FileSystemChain(*members)
+        for q in folder_qs:
+            check_listing(f'chain({kind})', chain, q, lambda n: chain[n])
+            if len(members) > 1:
+                rep = sorted(fold(f.path) for f in chain.walk_folder_repeat(q))
+                want = sorted(under(q) * len(members))
+                ctx.check(rep == want, 'dup_chain_repeat', f'chain({kind}) {what}: walk_folder_repeat({q!r})\n want {want!r}\n '
+                          f'got  {rep!r}', backend=backend, folder=q)
+    finally:
+        scratch.close()
+
+
 SUBCHECKS = [
     Sub('names', execute_names, strategy=fileset_strategy, quick=500, thorough=30000, floor=40,
         must_hit=('mixed_case', 'prefix_pair', 'spelling:backslash', 'spelling:swap', 'spelling:mixed_slash', 'absent',
@@ -836,6 +1003,9 @@ SUBCHECKS = [
         + (() if b == 'raw' else ('folder:upper', 'walk_nonempty:upper')))
     for b in BACKENDS
 ] + [
+    Sub('case_dups', execute_case_dups, strategy=casedup_strategy, quick=500, thorough=30000, floor=40,
+        must_hit=('has_case_dup_file', 'has_case_dup_folder', 'backend:zip', 'backend:vpk', 'chain:single',
+                  'chain:zip+vpk')),
     Sub('chain', execute_chain, strategy=chain_strategy, quick=600, thorough=30000, floor=40,
         must_hit=('shared_name', 'priority_insert', 'prefixed_member', 'members:4', 'walk_deduplicated',
                   'member:virtual', 'member:zip', 'member:vpk', 'member:raw', 'walk:exact', 'lookup:upper',
